@@ -7,7 +7,7 @@ func registerProperty(p *Property) { propTable[p.ID] = p }
 func init() {
 	registerProperty(&Property{
 		ID:    "C01",
-		Rules: []string{"codec-symmetry", "keyword-table", "zero-preserving", "proxy-complete", "ref-key", "escape", "name-verbatim"},
+		Rules: []string{"codec-symmetry", "keyword-table", "zero-preserving", "proxy-complete", "ref-key", "escape", "name-verbatim", "marshal-receiver"},
 		Explanation: "Decides the table agreements that JSON round-trip losslessness rests on: for every kind with hand-written codecs, every component is both encoded and decoded (codec-symmetry); every member the Swagger 2.0 / draft-4 meta-schemas define for a kind has a byte-identical JSON field or hand-coded holder (keyword-table); numeric keywords are pointer-typed and no omitempty sits on a non-pointer numeric (zero-preserving); anonymous encode proxies carry and populate every member of the component they replace (proxy-complete); writer and reader of $ref/$schema agree on the member name (ref-key).",
 		NotCovered: "round-trip equality of values (number formatting, free-form payloads, escaping of member names - see C06), deep nesting and combinations; x- members on externalDocs/xml objects (no holder in the types; informational note only)",
 	})
@@ -16,7 +16,7 @@ func init() {
 func init() {
 	registerProperty(&Property{
 		ID:    "C19",
-		Rules: []string{"required-emitted", "keyword-table"},
+		Rules: []string{"required-emitted", "keyword-table", "escape", "codec-no-panic"},
 		Explanation: "Decides the per-member half of validity preservation: for every kind and every member its meta-schema definition(s) require, the encoder cannot drop the member from a value decoded from a valid document (decided from the Go type, omitempty, the proxy special-casing in MarshalJSON partially evaluated under the definition's own enum constraints, and the definition's constraint on the member); and no member is renamed into something the closed definitions reject (keyword-table).",
 		NotCovered:  "validity of everything else (formats, oneOf selection, uniqueness), validity of expanded schemas' contents; the expansion half (holder either pure $ref or dereferenced with Ref cleared) is decided by ref-clear/containers under C03",
 	})
@@ -34,7 +34,7 @@ func init() {
 func init() {
 	registerProperty(&Property{
 		ID:    "C15",
-		Rules: []string{"lookup-table"},
+		Rules: []string{"lookup-table", "marshal-receiver"},
 		Explanation: "Decides, for every hand-written JSONLookup, agreement with the encoder's tables: a kind whose encoder emits vendor extensions consults Extensions[token]; every tag-driven component the encoder emits is consulted with jsonpointer.GetForToken (maps are indexed by the token); between two consultations a not-found failure falls through (the early error return is guarded by the negated test on the error text, whose constant is a prefix of the format string the pinned jsonpointer uses at its struct-field-not-found site, read from the module cache); the last consultation's result is returned; computed member names (default, decimal status codes) are answered; every kind C15 lists has a JSONLookup.",
 		NotCovered:  "value equality of what is returned; $ref members (excluded by the property); escape decoding of tokens and reflection-based lookup on plain structs (jsonpointer/swag, trusted)",
 	})
@@ -43,7 +43,7 @@ func init() {
 func init() {
 	registerProperty(&Property{
 		ID:    "C06",
-		Rules: []string{"escape", "fragment-disjoint", "map-order", "total-order"},
+		Rules: []string{"escape", "fragment-disjoint", "map-order", "total-order", "encode-readonly"},
 		Explanation: "Decides the structural conditions of well-formed, collision-free, deterministic encoding: in every function reachable from a MarshalJSON method, whatever is written to an output buffer or returned as bytes is a constant, an encoder result (json.Marshal, MarshalJSON, strconv quoting, ConcatJSON of such) or a constant package table (escape); fragments concatenated into one object have pairwise disjoint tagged names, no tagged name enters the x- / path key space, user-keyed maps pass a constant-prefix filter, and Schema.ExtraProps is only filled after every tagged name, $ref, $schema and x- key has been removed (fragment-disjoint); a range over a map only feeds another map or a slice sorted before use (map-order); sort comparators break ties (total-order).",
 		NotCovered:  "validity of free-form payload encoding (encoding/json), byte-identity across runs as an observed fact, duplicate keys arising from case-insensitive matching in encoding/json's decoder",
 	})
@@ -52,13 +52,13 @@ func init() {
 func init() {
 	registerProperty(&Property{
 		ID:    "C14",
-		Rules: []string{"gob-shapes", "gob-proxy-symmetry", "gob-via-json"},
+		Rules: []string{"gob-shapes", "gob-proxy-symmetry", "gob-via-json", "codec-must-pass"},
 		Explanation: "Which Go shapes gob cannot carry is a property of types: gob-shapes walks the type graph from the types the property names exactly as encoding/gob does (exported fields, through pointers, slices, maps and embedded structs; at a type with GobEncode it continues from the proxy value that body hands to the encoder, method-less aliases included) and reports every position of a lossy shape with a JSON-visible effect: L1 pointer to a basic type (pointed-to zero omitted, comes back nil), L2 interface{} position (empty container comes back nil), L4 struct with only unexported state and no codec; and checks the gob.Register calls. gob-proxy-symmetry checks every GobEncode/GobDecode pair: same proxy type, every receiver component covered on both sides, every proxy field set and consumed, and the nil / empty / non-empty security states distinguished on both sides. gob-via-json reduces Ref's gob law to its JSON law.",
 		NotCovered:  "equality of values after transport; L3 (nil-versus-empty slices whose difference is JSON-visible) beyond the security padding codec; behaviour of encoding/gob itself",
 	})
 	registerProperty(&Property{
 		ID:    "C13",
-		Rules: []string{"ref-key", "gob-via-json", "ref-opaque"},
+		Rules: []string{"ref-key", "gob-via-json", "ref-opaque", "codec-must-pass"},
 		Explanation: "Canonicalisation and classification live in jsonreference and net/url (trusted). Decided, as necessary conditions of the JSON/gob half: writer and reader of $ref use the same member name and Ref.MarshalJSON's constant outputs parse (at analysis time) to {} or an object with exactly that member (ref-key); Ref's gob codec wraps its JSON codec and propagates every error (gob-via-json); no function of the package stores into jsonreference.Ref's classification flags or builds one by literal, and every spec.Ref literal wraps a parsed reference, so classification stays a function of the parsed text (ref-opaque).",
 		NotCovered:  "idempotence of canonicalisation, equality of decoded references, classification correctness: all value-level inside jsonreference/net/url",
 	})
@@ -94,7 +94,7 @@ func init() {
 func init() {
 	registerProperty(&Property{
 		ID:    "C02",
-		Rules: []string{"thread-args", "switch-on-follow", "ref-store", "opts-copy-complete"},
+		Rules: []string{"thread-args", "switch-on-follow", "ref-store", "opts-copy-complete", "loader-shares-state"},
 		Explanation: "Bisimilarity is a relation between run-time graphs and is not decided. Decided are the threading disciplines behind 'a $ref is always interpreted relative to the document that textually contains it': at every call between expander family members (found by role) the base-path argument derives only from the caller's own base path, from id re-scoping (setSchemaID), from updateBasePath for the resolver just created, or from RemoteURI() of the normalised ref just followed, and the loader argument only from the caller's loader or from transitiveResolver(current base, the $ref being followed) (thread-args); after a followed $ref, whatever is expanded next receives the transitive resolver and the updated base (switch-on-follow); kept refs are rewritten against the root frame (ref-store).",
 		NotCovered:  "that normalizeURI, transitiveResolver's prefix test or resolveRef's root selection compute the right document (values) - in particular the wrong-document resolutions on multi-hop chains the property text mentions are value-level and invisible to these rules; map iteration order effects",
 	})
@@ -109,7 +109,7 @@ func init() {
 func init() {
 	registerProperty(&Property{
 		ID:    "C17",
-		Rules: []string{"no-goroutines", "lockset", "no-call-under-lock", "globals", "ctx-private"},
+		Rules: []string{"no-goroutines", "lockset", "no-call-under-lock", "globals", "ctx-private", "encode-readonly"},
 		Explanation: "The package starts no goroutine (checked), so all concurrency is the caller's and the package's obligations are about what two calls can share. lockset (go/cfg must-hold): every access to a field of a struct that carries a sync.(RW)Mutex happens with the write lock (writes) or at least the read lock (reads) held on every path, and no return is reachable with a lock held; one audited exception is tied to the who-calls fact that makes it sound. no-call-under-lock: nothing but map operations happens in a locked region; sync.Once is used only through Do with a function that does not re-enter. globals + ctx-private: two calls on independent data share no writable memory other than a caller-supplied cache.",
 		NotCovered:  "that every call returns what it would have returned alone (value statement); thread-safety of swag.NameProvider and other dependencies; caller-implemented caches",
 	})
@@ -124,13 +124,13 @@ func init() {
 func init() {
 	registerProperty(&Property{
 		ID:    "C18",
-		Rules: []string{"load-once", "canon-key", "globals", "root-registered"},
+		Rules: []string{"load-once", "canon-key", "globals", "root-registered", "loader-shares-state"},
 		Explanation: "Transparency of results is value-level and not decided. Decided: the document loader (a func-typed field of the resolver context, found by role) is called at exactly one site, which is the field's only reader; that call is reachable only on the miss branch of a cache lookup; lookup, loader call and cache fill use one key variable assigned once from normalizeBase; every successful return after the load (go/cfg) has stored the decoded document under that key (load-once). Every other cache Get/Set uses a key produced by the normaliser, with the fragment cleared (canon-key), so 'already present in the supplied cache' is decided on the key the loader would be called with. The default cache is a clone of the built-in one (globals).",
 		NotCovered:  "that results are identical with and without a cache (values); the behaviour of caller-supplied cache implementations",
 	})
 	registerProperty(&Property{
 		ID:    "C11",
-		Rules: []string{"canon-entry", "canon-key", "entry-wiring"},
+		Rules: []string{"canon-entry", "canon-key", "entry-wiring", "canon-normalizer"},
 		Explanation: "Equality of results across spellings and idempotence of normalizeBase are value-level and not decided. Decided: every base location that enters through the API passes through the normaliser before it can reach a loader, a cache key or a family call: the options cloner replaces a non-empty RelativeBase by normalizeBase of itself and returns the clone; the pseudo-root helper returns a normalizeBase result; the loader factory substitutes it when no base is given; every entry point takes its base from the cloned options or from the pseudo-root helper (entry-wiring); every cache key and the argument of the document loader are normaliser results with the fragment cleared (canon-key).",
 		NotCovered:  "that normalizeBase's output is scheme-present/absolute/cleaned and that it is idempotent (its contract: values); equality of expansion results across spellings",
 	})
@@ -154,7 +154,7 @@ func init() {
 func init() {
 	registerProperty(&Property{
 		ID:    "C07",
-		Rules: []string{"codec-no-panic", "bounded-recursion"},
+		Rules: []string{"codec-no-panic", "bounded-recursion", "encoder-constants-decodable"},
 		Explanation: "Decides the totality half structurally. codec-no-panic: in every function reachable from any UnmarshalJSON, MarshalJSON, GobEncode, GobDecode, fromMap or JSONLookup method (static callees plus sort.Interface methods) there is no panic-capable construct: no Must*/panic call, no single-result type assertion outside a type switch, every index on the input bytes is dominated by a length guard that implies it is in range, every other index/slice expression is bounded by its loop, and every store into a field map is dominated by the nil-check-and-make idiom or targets a freshly made map. bounded-recursion: no codec method lies on a static call cycle, and none hands its own whole input (or receiver) back to encoding/json at a type whose method set resolves to that very method; recursion therefore only goes through encoding/json on strictly nested values, bounded by its nesting limit.",
 		NotCovered:  "the fixed-point law decode.encode.decode.encode = decode.encode (value-level; e.g. \"items\": [] -> null is not detected); panics or hangs inside dependencies; stack depth of encoding/json itself",
 	})
